@@ -320,6 +320,33 @@ func (c *r8Chain) acceptingUnder(m *r8Member, reach *Reach) (*ssa.Return, string
 	return nil, ""
 }
 
+// notRemembered: the first return that may report "valid" on the walk and is not the hit of a remembered
+// verdict (R9); nil when every such return is one.
+func (c *r8Chain) notRemembered(m *r8Member, reach *Reach) *ssa.Return {
+	mm := c05Remembered(c.r, m.fn, m.calls, m.isErr)
+	n := 0
+	for _, ret := range Returns(m.fn) {
+		if !reach.Has(ret) || len(ret.Results) != 1 {
+			continue
+		}
+		var leaves []ssa.Value
+		verdictLeaves(ret.Results[0], reach, map[ssa.Value]bool{}, &leaves)
+		for _, l := range leaves {
+			if k := c.leafKind(m, l, ret.Block()); k == "accept" || k == "unknown" {
+				if !mm.hits[ret] {
+					return ret
+				}
+				n++
+				break
+			}
+		}
+	}
+	if n == 0 {
+		return Returns(m.fn)[0]
+	}
+	return nil
+}
+
 func c05Chain(r *Run) {
 	r.Rule("C05.R8")
 	c := discoverR8Chain(r)
@@ -383,6 +410,17 @@ func c05Chain(r *Run) {
 					accepted = true
 					noVerifier++
 					r.Pass(key+":valid-needs-verification", r.Where(ret), fmt.Sprintf("with a verifier present (%s non-nil) no return reports valid unless a call of the next layer did; without one the function accepts (counted below)", strings.Join(names, ", ")))
+				}
+			}
+			if !accepted {
+				// the other sound way to answer without asking: this very question was answered 'valid'
+				// before (a remembered verdict). Every return that reports valid under this walk must then
+				// be a hit of the memory; what makes a hit an answer to THIS call's question is R9's.
+				if bad := c.notRemembered(m, reach); bad == nil {
+					accepted = true
+					r.Pass(key+":valid-needs-verification", r.Where(ret), "a return reports valid without a verdict of this call only as the hit of a remembered verdict; that the remembered verification answers this call's question (every operand covered, filled after verification, private, immutable) is decided by C05.R9 (memo:"+name+":*)")
+				} else if bad != ret {
+					ret, why = bad, "reports valid"
 				}
 			}
 			if !accepted {
